@@ -19,6 +19,12 @@
 //                  r<a>.<s> Rebalance to the relocator (spawn fails -> abort)  x<a>.<s> worker run (Peers fails)
 //        -> per-op results, then "| jobs=.. workers=.. del=<n>"
 //
+//   lv <s|c> <k> <a>   STARTED system, real relocator actor (real spawnRelocator), real startWorker and
+//                  worker actor: s = snapshot path, c = crash-recovery path (real gateCrashRecovery);
+//                  k duplicate NodeLefts (real handleNodeLeftEvent) while the worker is blocked in
+//                  cluster.Peers; the first a worker runs abort (Peers fails) and the departure is
+//                  notified again after each abort
+//        -> "runs=<worker runs> started=<RelocationStarted> failed=<RelocationFailed> job=.." | "timeout <wait>"
 //   nl <k> <h>     one departure with a snapshot: first NodeLeft, k duplicate NodeLefts (real
 //                  handleNodeLeftEvent) while in flight, worker run with h duplicate NodeLefts delivered
 //                  from inside DeletePeerState (the worker is still in finish())
@@ -577,6 +583,23 @@ func handle(line string) string {
 		return opRS(f)
 	case "job":
 		return opJob(f)
+	case "lv":
+		if len(f) != 4 || (f[1] != "s" && f[1] != "c") {
+			return "bad-case"
+		}
+		k, e1 := strconv.Atoi(f[2])
+		a, e2 := strconv.Atoi(f[3])
+		if e1 != nil || e2 != nil || k < 0 || a < 0 || k > 10 || a > 5 {
+			return "bad-case"
+		}
+		res, err := actor.VerifLiveScript(f[1] == "s", k, a)
+		if err != nil {
+			return "rig-error " + vlib.Canon(err.Error())
+		}
+		if res.Timeout != "" {
+			return "timeout " + res.Timeout
+		}
+		return fmt.Sprintf("runs=%d started=%d failed=%d job=%s", res.Runs, res.Started, res.Failed, res.Job)
 	case "nl":
 		if len(f) != 3 {
 			return "bad-case"
